@@ -18,7 +18,7 @@ def _field_acqs(P, b, field):
     out = {}
     for bb, a in acqs.items():
         for t in a["cell"]:
-            for (_, rk, rd, path) in P.global_cell(b, t):
+            for (_, rk, rd, path) in P.global_cell(b, t, through_helpers="add"):
                 if field in path:
                     out[bb] = a
     return out, held, sh
@@ -30,7 +30,7 @@ def _module_bodies(P):
 
 def _touches(P, b, operand, field):
     for t in b.operand_prov(operand):
-        for (_, rk, rd, path) in P.global_cell(b, t):
+        for (_, rk, rd, path) in P.global_cell(b, t, through_helpers="add"):
             if field in path:
                 return True
     return False
@@ -44,7 +44,7 @@ def _abort_stores(P, b):
             if s["k"] == "assign" and len(s["lhs"]) > 1:
                 hit = False
                 for t in b.place_prov(s["lhs"]):
-                    for (_, rk, rd, path) in P.global_cell(b, t):
+                    for (_, rk, rd, path) in P.global_cell(b, t, through_helpers="add"):
                         if "abort" in path:
                             hit = True
                 if hit:
@@ -201,7 +201,7 @@ def q_rules(P, E):
         for t in b.operand_prov(c.args[0]):
             if t[0] == "agg":
                 continue          # the `None` arm of the same option
-            if not any("queue" in g[3] and "[]" in g[3] for g in P.global_cell(b, t)):
+            if not any("queue" in g[3] and "[]" in g[3] for g in P.global_cell(b, t, through_helpers="add")):
                 from_pop = False
         r.instance(("Q9", b.nid), True, "invoked value derives from pop: %s" % from_pop)
         if not from_pop:
@@ -287,7 +287,7 @@ def q_rules(P, E):
     spawns = E.sites["spawn"]
     r.instance(("Q7", "scheduling callers"), True, "%s" % [x.nid for x, _ in callers])
     for (x, c) in callers:
-        if "THREAD" not in E.role_of(x.id) or not x.nid.startswith(NTS + "::new"):
+        if "THREAD" not in E.role_of(x.id):
             r.violate(("Q7", x.nid, "scheduling called outside the worker thread"),
                       "scheduling() runs somewhere else than the thread spawned by NewThreadScheduler::new", body=x, line=c.line)
     if not callers:
